@@ -147,7 +147,7 @@ def run(ctx):
             return sel[0]
         return [list(sel), np.array(sel), tuple(sel), list(sel)][k]
 
-    def do_set(ppg, q, req, scalar, sel):
+    def do_set(ppg, q, req, scalar, sel, form=None):
         vals = [v * UNIT[q] if q not in ("plen", "order") else v for v in req]
         # a request one unit beyond a limit is also made a hair (3 ppm) beyond it: still out of range, still to be clamped
         LIM = {"freq": (15, 320), "amp": (3, 20), "offs": (-20, 30), "skew": (-25, 25)}
@@ -161,6 +161,10 @@ def run(ctx):
         if whole and nform[0] % 3 == 0:
             vals = [int(round(v)) for v in vals]
         arg = vals[0] if scalar else [list(vals), np.array(vals), tuple(vals)][nform[0] % 3]
+        if form is not None:     # a pinned spelling of a whole-number request: integer-typed scalar / list / ndarray / tuple
+            ivals = [int(round(v)) for v in vals]
+            arg = {"int": lambda: ivals[0], "npint": lambda: np.int64(ivals[0]), "list": lambda: list(ivals), "ndarray": lambda: np.array(ivals),
+                   "tuple": lambda: tuple(ivals), "i2": lambda: np.array(ivals, dtype=np.int16)}[form]()
         ppg.inst.log.clear()
         raised = False
         with warnings.catch_warnings(record=True) as w:
@@ -420,6 +424,22 @@ def run(ctx):
                 meta.append(("set", q, "absurd", "sel", raised))
         ctx.case(("rset-absurd", q))
     validate(ctx, events, meta, 1024, 2 ** 21, "absurd requests (real constants)")
+    # whole-number requests written as integers (deterministic): below, inside and above the range, every spelling, every quantity that takes volts or counts
+    ppg = new_ppg()
+    events, meta = [], []
+    for q, reqs in (("amp", [[0], [-10], [10], [50], [0, 10, 30, -20]]), ("offs", [[-30], [40], [0], [10], [-30, 0, 40, 20]]),
+                    ("plen", [[0], [1], [2], [2 ** 21 + 1], [1, 2, 3, 2 ** 21 + 5]]), ("order", [[0], [8], [7], [40], [8, 9, 13, 30]])):
+        for req in reqs:
+            for form in ((("int",) if len(req) == 1 else ()) + ("list", "ndarray", "tuple", "i2")):   # (numpy integer scalars are outside the documented argument types)
+                if form == "i2" and max(abs(v) for v in req) > 30000:
+                    continue
+                scalar = form == "int"
+                for sel in ([], [2, 4], [1, 2, 3, 4]):
+                    cmds, warned, raised = do_set(ppg, q, req, scalar, sel, form=form)
+                    events.append({"kind": "set", "q": q, "req": list(req), "scalar": scalar, "sel": sel, "cmds": cmds, "warned": warned, "raised": bool(raised)})
+                    meta.append(("set", q, "integer-typed " + form, "sel", raised))
+                ctx.case(("rset-int", q, form, len(req) > 1))
+    validate(ctx, events, meta, 1024, 2 ** 21, "integer-typed requests (real constants)")
     # ------------------------------------------------------------------ 3. SYNC
     events, meta = [], []
     for k in range(400 if T else 40):
